@@ -283,3 +283,39 @@ impl Interpreter {
         self.rng = Rng::new(seed);
     }
 }
+
+#[cfg(feature = "verif-hooks")]
+impl Interpreter {
+    pub(crate) fn verif_snapshot(&self) -> crate::verif::Snapshot {
+        let mut snapshot = crate::verif::Snapshot {
+            state: self.state,
+            pending_input: self.input.clone(),
+            pending_output_len: self.output.len(),
+            location: crate::verif::Loc {
+                line: None,
+                token_index: 0,
+            },
+            breakpoint: None,
+            stack: vec![],
+            loops: vec![],
+            data_cursor: None,
+            functions: vec![],
+            variables: self.variables.verif_entries(),
+            arrays: self.arrays.verif_entries(),
+            seed: self.rng.verif_seed(),
+            enable_warnings: self.enable_warnings,
+            enable_tracing: self.enable_tracing,
+            line_map_keys: vec![],
+            line_set_keys: vec![],
+            immediate_line: vec![],
+            token_reads: 0,
+        };
+        self.program.verif_fill(&mut snapshot);
+        snapshot
+    }
+
+    /// The stored program as (line number, tokens), in listing order.
+    pub fn verif_program_lines(&self) -> Vec<(u64, Vec<crate::verif::Tok>)> {
+        self.program.verif_lines()
+    }
+}
